@@ -183,7 +183,14 @@ def predict_sets(pm, start):
 
 
 def is_ll1(pm, start):
-    """LL(1) as written: for every symbol the predict sets of its alternatives are pairwise disjoint."""
+    """LL(1) as written: for every symbol the predict sets of its alternatives are pairwise disjoint
+    and at most one alternative derives the empty string.  (The second clause only matters for a symbol
+    whose FOLLOW set is empty -- a useless symbol; it keeps such degenerate grammars, in which a symbol
+    derives eps in two ways, out of the obligation.)"""
+    nul = nullables(pm)
+    for x, alts in pm.items():
+        if sum(1 for a in alts if all(s in nul for s in a)) > 1:
+            return False
     for lst in predict_sets(pm, start).values():
         seen = set()
         for p in lst:
@@ -440,10 +447,15 @@ def _canonical_terms(prods, terms):
     return True
 
 
-def family_follow_rich_lists(helpers, terms, max_len, need_nt=True):
+def family_follow_rich_lists(helpers, terms, max_len, need_nt=True, self_ref=None):
     """Alternative lists of the rich symbol: 1-2 distinct alternatives of length <= max_len over
-    helpers+terms; with need_nt every alternative contains a helper symbol."""
-    alts = alternatives(tuple(helpers) + tuple(terms), max_len)
+    helpers+terms; with need_nt every alternative contains a helper symbol; with self_ref=<name> the rich
+    symbol itself may occur, but only directly behind a terminal."""
+    symbols = tuple(helpers) + tuple(terms) + ((self_ref,) if self_ref else ())
+    alts = alternatives(symbols, max_len)
+    if self_ref:
+        alts = [a for a in alts
+                if all(s != self_ref or (i > 0 and a[i - 1] in terms) for i, s in enumerate(a))]
     if need_nt:
         alts = [a for a in alts if any(s in helpers for s in a)]
     out = [(a,) for a in alts]
@@ -452,17 +464,19 @@ def family_follow_rich_lists(helpers, terms, max_len, need_nt=True):
 
 
 def family_follow(terms, max_len=3, need_nt=True, canonical=True, rich_slice=None,
-                  rich="E", helpers=("A", "N")):
+                  rich="E", helpers=("A", "N"), self_ref=False, two_token_helpers=True):
     """C02 directed family "one rich symbol + two helper symbols" (FOLLOW interplay).
 
-    E  : 1-2 alternatives of length <= max_len over {A, N} + terms
-    A,N: helper_menu(terms)
+    E  : 1-2 alternatives of length <= max_len over {A, N} + terms (+ E behind a terminal with self_ref)
+    A,N: helper_menu(terms); two_token_helpers=False drops the helper definitions "t | u" (two terminals)
     canonical: keep one representative per renaming of the terminals.
     """
-    riches = family_follow_rich_lists(helpers, terms, max_len, need_nt)
+    riches = family_follow_rich_lists(helpers, terms, max_len, need_nt, rich if self_ref else None)
     if rich_slice is not None:
         riches = riches[rich_slice[0]::rich_slice[1]]
     menu = helper_menu(terms)
+    if not two_token_helpers:
+        menu = [m for m in menu if len(m) == 1 or () in m]
     for el in riches:
         for al in menu:
             for nl in menu:
@@ -472,7 +486,26 @@ def family_follow(terms, max_len=3, need_nt=True, canonical=True, rich_slice=Non
                 yield prods
 
 
-def family_prefix(terms, nts=("E", "A")):
+def family_follow2(terms, rich_slice=None, rich="E", second="A", helper="N"):
+    """C02 directed family "two rich symbols + one helper".
+
+    E: 1-2 alternatives of length <= 3 over {A, N} + terms, each containing a non-terminal
+    A: 1-2 alternatives of length <= 2 over {N} + terms
+    N: eps, or eps and one terminal in both orders
+    """
+    riches = family_follow_rich_lists((second, helper), terms, 3, True)
+    if rich_slice is not None:
+        riches = riches[rich_slice[0]::rich_slice[1]]
+    a_alts = alternatives((helper,) + tuple(terms), 2)
+    a_lists = [(a,) for a in a_alts] + list(itertools.permutations(a_alts, 2))
+    n_lists = [((),)] + [p for t in terms for p in (((), (t,)), ((t,), ()))]
+    for el in riches:
+        for al in a_lists:
+            for nl in n_lists:
+                yield ((rich, el), (second, al), (helper, nl))
+
+
+def family_prefix(terms, nts=("E", "A"), full=True):
     """C01 directed family for factorization: alternative lists of E built from a common prefix.
 
     prefix  : length 1-3, first symbol a terminal or the non-terminal A
@@ -480,6 +513,7 @@ def family_prefix(terms, nts=("E", "A")):
               optionally a nested common prefix (two suffixes sharing their first symbols) and an empty
               (nullable) remainder; an unrelated alternative before / after the group.
     A       : a few helper definitions (terminal, nullable, two-token).
+    full=False (quick tier): the first two definitions of A and three of the four placements only.
     """
     t0, t1 = terms[0], terms[1]
     e, a = nts
@@ -487,7 +521,10 @@ def family_prefix(terms, nts=("E", "A")):
     rem_menu = [(), (t0,), (t1,), (t0, t0), (t0, t1), (t1, t0), (t1, t1), (a,), (t1, a), (t0, t1, t0),
                 (t0, t1, t1)]
     a_defs = [((t1,),), ((), (t1,)), ((t1,), ()), ((t0, t1), (t1,)), ((t1, t0), (t1, t1), ())]
-    extras = [None, ("before", (t1, t1, t1)), ("after", (t1, t1, t1)), ("after", ())]
+    extras = [None, ("before", (t1, t1, t1)), ("after", ()), ("after", (t1, t1, t1))]
+    if not full:
+        a_defs = a_defs[:2]
+        extras = extras[:3]
     for pre in prefixes:
         for k in range(2, 8):
             for rems in itertools.combinations(rem_menu, k):
